@@ -65,6 +65,10 @@ Inductive scase :=
 (* free running: concurrent requesters, records flowing; only the monitor decides *)
 | SRace (chron : list nev) (results : list (bool * option res)) (acks : list nat)
         (taken : nat) (posok hung must_end : bool)
+(* service level, a chain of processors: one projection (calls, results, acks, records taken) per
+   processor node; posok: every record reached the destination once, in order, with exactly one stamp
+   per processor of the chain in chain order, and the running flags are right *)
+| SChain (per : list (list nev * list (bool * option res) * list nat * nat)) (posok hung : bool)
 (* engine v2: ReconfigureProcessor is the constant "not live-reconfigurable" answer *)
 | SV2 (sentinel unchanged : bool).
 
@@ -82,5 +86,9 @@ Definition chk (c : scase) : nat :=
              (mon chron results acks taken posok hung true)
   | SRace chron results acks taken posok hung must_end =>
       code true (mon chron results acks taken posok hung must_end)
+  | SChain per posok hung =>
+      code true (forallb (fun p => match p with (chron, results, acks, taken) =>
+                                     mon chron results acks taken posok hung true end) per
+                 && posok && negb hung)
   | SV2 sentinel unchanged => code (sentinel && unchanged) (sentinel && unchanged)
   end.
